@@ -145,6 +145,21 @@ def check(case):
     elif any(out3[f][n] is not o for f in ("domains", "strands", "complexes", "macrostates") for n, o in out[f].items()):
         fails.append("is-file: reading the file while the text's objects are held returned other objects")
     out3 = None
+    # the same system declared again with other concentrations, while the first result is held
+    sec = case.get("second")
+    if sec and exp is not None:
+        k5, out5 = outcome(lambda: objectio.read_pil(sec["text"]))
+        if k5 == "err":
+            fails.append(f"second-document: re-declaring the live system with other concentrations raised {out5}")
+        else:
+            d5 = describe(out5)["complexes"]
+            bad = [n for n in sec["expected"]["complexes"] if d5.get(n) != sec["expected"]["complexes"][n]]
+            if bad:
+                fails.append(f"second-document: complexes {bad[:3]} read {[d5.get(n) for n in bad[:3]]} while the first result was "
+                             f"held, the document declares {[sec['expected']['complexes'][n] for n in bad[:3]]}")
+            if any(out5["complexes"].get(n) is not o for n, o in out["complexes"].items()):
+                fails.append("second-document: a live complex declared again is another object")
+        out5 = None
     out = None
     # the lines one by one in a fresh session, results held: the same objects by description
     if stmts and exp is not None:
